@@ -133,37 +133,36 @@ def targetCoordsOk (qc : List (Nat × List Rat)) (t : XTarget) : Bool :=
   let expected := if tt.isRec || tt.isSweep || tt.isCombiner then [] else coordsOfQubit qc tt.value
   ratsEq' expected (t.coords.map ratOfBits)
 
-/-- check one reported location against the symptom vector `want` of its error; "ok" or a reason -/
-def checkLoc (c : Circuit) (shape : Nat × Nat) (qc : List (Nat × List Rat)) (want : List Bool) (l : XLoc) : String :=
+/-- the failure conditions of a reported location once its frames have resolved to occurrence `i` of `g[tag](args) ts`,
+    in the order in which they are reported: (condition holds = the location is wrong, message) -/
+def locFailures (c : Circuit) (shape : Nat × Nat) (qc : List (Nat × List Rat)) (want : List Bool) (l : XLoc)
+    (i : Nat) (g tag : String) (args : List Nat) (ts : List Target) : List (Bool × String) :=
   let n := c.numQubits
+  let before := resultsBefore c i
+  let rel : Option (Option Nat) := match l.meas with
+    | none => some none
+    | some m => if before ≤ m && m < before + resultsOf g ts then some (some (m - before)) else none
+  let letters := lettersOfTargets n l.pauli
+  let slice := ((ts.take l.rangeEnd).drop l.rangeStart).filter (!·.isCombiner)
+  let obsOk := if isMeasGate g then l.measObs.map (·.data) == slice.map fun t => t.raw ||| obsMask g else l.measObs.isEmpty
+  let got := symptomVec shape (injectBefore c i letters l.meas)
+  [ (g != l.gate, "wrong-gate " ++ g),
+    (tag != l.gateTag || tag != l.noiseTag, "wrong-tag"),
+    (args != l.args, "wrong-args"),
+    (l.rangeEnd > ts.length || l.rangeStart ≥ l.rangeEnd, "bad-target-range"),
+    (((ts.take l.rangeEnd).drop l.rangeStart).map (·.raw) != l.range.map (·.data), "wrong-targets-in-range"),
+    (ticksBefore c i != l.tick, "wrong-tick"),
+    (!(l.range ++ l.pauli ++ l.measObs).all (targetCoordsOk qc), "wrong-qubit-coords"),
+    (rel.isNone, "flipped-measurement-not-produced-by-reported-instruction"),
+    (!faultAllowed n g args ts l.rangeStart l.rangeEnd letters (rel.getD none), "fault-is-not-an-outcome-of-the-reported-noise"),
+    (!obsOk, "wrong-measured-observable"),
+    (got != want, "symptoms-differ got=" ++ String.ofList (got.map fun b => if b then '1' else '0')) ]
+
+/-- check one reported location against the symptom vector `want` of its error; `none` = accepted, `some reason` otherwise -/
+def checkLoc (c : Circuit) (shape : Nat × Nat) (qc : List (Nat × List Rat)) (want : List Bool) (l : XLoc) : Option String :=
   match resolveLoc c l.frames with
-  | none => "stack-frames-do-not-resolve"
-  | some (_, .rep _ _ _) => "stack-frames-do-not-resolve"
-  | some (i, .instr g tag args ts) =>
-    if g != l.gate then "wrong-gate " ++ g
-    else if tag != l.gateTag || tag != l.noiseTag then "wrong-tag"
-    else if args != l.args then "wrong-args"
-    else if l.rangeEnd > ts.length || l.rangeStart ≥ l.rangeEnd then "bad-target-range"
-    else if ((ts.take l.rangeEnd).drop l.rangeStart).map (·.raw) != l.range.map (·.data) then "wrong-targets-in-range"
-    else if ticksBefore c i != l.tick then "wrong-tick"
-    else if !(l.range ++ l.pauli ++ l.measObs).all (targetCoordsOk qc) then "wrong-qubit-coords"
-    else
-      let before := resultsBefore c i
-      let rel : Option (Option Nat) := match l.meas with
-        | none => some none
-        | some m => if before ≤ m && m < before + resultsOf g ts then some (some (m - before)) else none
-      match rel with
-      | none => "flipped-measurement-not-produced-by-reported-instruction"
-      | some rel =>
-        let letters := lettersOfTargets n l.pauli
-        if !faultAllowed n g args ts l.rangeStart l.rangeEnd letters rel then "fault-is-not-an-outcome-of-the-reported-noise"
-        else
-          let slice := ((ts.take l.rangeEnd).drop l.rangeStart).filter (!·.isCombiner)
-          let obsOk := if isMeasGate g then l.measObs.map (·.data) == slice.map fun t => t.raw ||| obsMask g else l.measObs.isEmpty
-          if !obsOk then "wrong-measured-observable"
-          else
-            let st := injectBefore c i letters l.meas
-            if symptomVec shape st != want then "symptoms-differ got=" ++ String.ofList ((symptomVec shape st).map fun b => if b then '1' else '0')
-            else "ok"
+  | none => some "stack-frames-do-not-resolve"
+  | some (_, .rep _ _ _) => some "stack-frames-do-not-resolve"
+  | some (i, .instr g tag args ts) => ((locFailures c shape qc want l i g tag args ts).find? (·.1)).map (·.2)
 
 end Stim
